@@ -358,7 +358,7 @@ func propC01(c *Ctx) {
 	}
 	rccf := c.Rule("const-cache-float", "a Float constant reaches the value-keyed constant cache only after the sign of a zero has been examined (0.0 and -0.0 are one map key; the optimizer folds -0.0 into a literal, the plain compiler negates at run time)", 1)
 	ruleConstCacheFloat(c, rccf)
-	rse := c.Rule("shared-expr-no-rewrite", "an expression that is compiled once per member of a const group (implicit repetition) is not rewritten in place by the compile-time folder: every call of the folder is guarded by the compiler's shared-expression flag and the function that carries the expression over raises it", 3)
+	rse := c.Rule("shared-expr-no-rewrite", "an expression that is compiled once per member of a const group (implicit repetition) is not rewritten in place by the compile-time folder: every call of the folder is guarded by the compiler's shared-expression flag and the function that carries the expression over raises it", 2)
 	ruleSharedExprNoRewrite(c, rse)
 	rrr := c.Rule("rewrite-by-result", "the optimizer rewrites the tree only by putting the result of a folding / evaluating call in the place of the folded expression: no sub-expression is moved from one node to another", 10)
 	ruleRewriteByResult(c, rrr)
